@@ -37,6 +37,10 @@ pub struct RunReport {
     pub sample: Option<Value>,
     #[serde(default)]
     pub harness_error: Option<String>,
+    /// values that must be unique across the whole campaign (salts, decoy digests): 128-bit
+    /// hashes, 32 hex characters each, concatenated; compared across runs by the supervisor
+    #[serde(default, skip_serializing_if = "String::is_empty")]
+    pub tokens: String,
 }
 
 impl RunReport {
